@@ -669,15 +669,46 @@ func sqlTextHasPrefix(ins ssa.Instruction, prefix string) bool {
 		if !isStringType(a.Type()) {
 			continue
 		}
-		v := a
-		for {
-			if bo, ok := v.(*ssa.BinOp); ok && bo.Op == token.ADD {
-				v = bo.X
-				continue
+		// the statement text, possibly kept in a local (or a variable a deferred closure captures) first
+		var leftmost func(v ssa.Value, d int) ssa.Value
+		leftmost = func(v ssa.Value, d int) ssa.Value {
+			if d > 8 {
+				return v
 			}
-			break
+			switch x := v.(type) {
+			case *ssa.BinOp:
+				if x.Op == token.ADD {
+					return leftmost(x.X, d+1)
+				}
+			case *ssa.UnOp:
+				if x.Op == token.MUL {
+					if cell := cellOf(x.X); cell != nil {
+						var only ssa.Value
+						n := 0
+						var scan func(f *ssa.Function)
+						scan = func(f *ssa.Function) {
+							eachInstr(f, func(_ *ssa.BasicBlock, _ int, in ssa.Instruction) {
+								if st, ok := in.(*ssa.Store); ok && cellOf(st.Addr) == cell {
+									only = st.Val
+									n++
+								}
+							})
+							for _, a := range f.AnonFuncs {
+								scan(a)
+							}
+						}
+						if cell.Parent() != nil {
+							scan(cell.Parent())
+						}
+						if n == 1 {
+							return leftmost(only, d+1)
+						}
+					}
+				}
+			}
+			return v
 		}
-		if s, ok := constString(v); ok && strings.HasPrefix(strings.ToUpper(strings.TrimLeft(s, " ")), strings.ToUpper(prefix)) {
+		if s, ok := constString(leftmost(a, 0)); ok && strings.HasPrefix(strings.ToUpper(strings.TrimLeft(s, " ")), strings.ToUpper(prefix)) {
 			return true
 		}
 	}
